@@ -152,6 +152,14 @@ func (h *httpContext) InspectServerBlocks(sourceFile string, serverBlocks []cask
 			if addrCopy.Port == "" && Port == DefaultPort {
 				addrCopy.Port = Port
 			}
+			// (spellings that select the same requests are the same address: a path of "/" is no
+			// path, and a port is a number)
+			if addrCopy.Path == "/" {
+				addrCopy.Path = ""
+			}
+			if n, err := strconv.Atoi(addrCopy.Port); err == nil {
+				addrCopy.Port = strconv.Itoa(n)
+			}
 			addrStr := addrCopy.String()
 			if otherSiteKey, dup := siteAddrs[addrStr]; dup {
 				err := fmt.Errorf("duplicate site address: %s", addrStr)
